@@ -46,6 +46,10 @@ ERROR = [".word undef\n", ".byte 400\n", "mov r0\n", "br far\n.blkb 1000\nfar:\n
 # once-per-statement marks behind (definitions inside a repeat body)
 ERROR += ["v = w + 1\n\t.word 0 * v\n\t.word r0\nw = 5\n", "v = w\n\t.word v * 0, 1/0\n\t.word undefq\nw = 1\n",
           "\t.repeat 2 {\n" + "".join(f"lq{q}: nop\nla{q} = {q}\n" for q in range(100)) + "\t}\n"]
+# errors raised from INSIDE operand encoding (a register where a branch target is expected), also inside a repeat body where the
+# assembly carries on; a file that includes itself and then fails at every level on the way back
+ERROR += ["bne r0\n", "sob r1, r2\n", "\t.repeat 2 { beq r1 }\n\tnop\n", "br (r0)+\nbne r0\nbr r1\n", ".include \"selfinc.mac\"\n",
+          "nop\n.include \"selfinc.mac\"\n.word 1\n"]
 CRITICAL = [".word (1\n", "mov r0,\n", ".ascii \"abc\n", "a = \n", "nop , r0\n", ".word ^Q1\n", "mov #\n",
             "nop\nnop\n\t\t.word 1, ^XG\n", ".byte ^B2\n", "x = ^O8\n", "\n\n\n\n.word ^DA\n"]
 CRASHERS = ["@.\n", "clr (%a)\n", ".word 1 { }\n", "make_wav \"αβγ\"\n", "'\\", "make_raw \"a\" <4294967296.>\n", "ldf %a, ac0\n", "br #.\n"]
@@ -215,7 +219,15 @@ P10 = """        .word ^| 6 / 2 |
         .word ^? ^| 6 / 2 | ?
 """
 P11 = "        .word ^/ ^| 6 / 2 | /\n"
+# the first number of a branch operand is a local label ('label-fixup'): every branch mnemonic family once
+P12 = """1:      nop
+        bne 1+2
+        sob r1, 1+2
+        beq 1 + 2
+2:      br 2-2
+"""
 P4FS = {
+    "selfinc.mac": ".include \"selfinc.mac\"\n.word r0\n",
     "pinc.mac": "px1 == 5\n.word px1, priv\npriv = 3\nplbl:: nop\n",
     "sub/pinc2.mac": "insert_file \"../data.bin\"\n.word . / 2\n",
     "once.mac": ".once\nonce1: .word 1\n",
@@ -236,6 +248,7 @@ PROBES = [
     ("p9", [("p9.mac", P9)], None),
     ("p10", [("p10.mac", P10)], None),
     ("p11", [("p11.mac", P11)], None),
+    ("p12", [("p12.mac", P12)], None),
 ]
 
 
